@@ -113,6 +113,21 @@ func refersToItself(typ reflect.Type) bool {
 	return false
 }
 
+// isProtoSlice reports whether c, or what c points to, writes a slice in the
+// protobuf repeated form
+func isProtoSlice(c plenccodec.Codec) bool {
+	for {
+		switch cc := c.(type) {
+		case plenccodec.ProtoSliceWrapper:
+			return true
+		case plenccodec.PointerWrapper:
+			c = cc.Underlying
+		default:
+			return false
+		}
+	}
+}
+
 // CodecForTypeRegistry builds a new codec for the requested type, consulting
 // registry for any existing codecs needed
 func (p *Plenc) CodecForTypeRegistry(registry plenccodec.CodecRegistry, typ reflect.Type, tag string) (plenccodec.Codec, error) {
@@ -185,6 +200,12 @@ func (p *Plenc) CodecForTypeRegistry(registry plenccodec.CodecRegistry, typ refl
 			}
 			c = plenccodec.WTFixedSliceWrapper{BaseSliceWrapper: bs}
 		case plenccore.WTLength:
+			if isProtoSlice(subc) {
+				// The protobuf repeated form has no length of its own, so as
+				// an element of another slice its entries would run into
+				// those of its neighbours
+				return nil, fmt.Errorf("slices of slices of structs or strings are not supported")
+			}
 			if p.ProtoCompatibleArrays || tag == "proto" {
 				// When writing we just want to repeat the encoding of an
 				// individual element within the slice as if it was a separate
